@@ -132,7 +132,11 @@ pub(crate) fn spec_contended(m: ZXMachine, latch: &SpecLatch, addr: u16) -> bool
 /// Build a controller at frame time `t` with an arbitrary reachable paging latch (two real port
 /// writes), returning the ghost latch.
 pub(crate) fn any_controller_at(kempston: bool, mouse: bool) -> (ZXController<VHost>, SpecLatch, usize) {
-    let m = crate::emulator::verif_hooks::any_machine();
+    controller_at_machine(crate::emulator::verif_hooks::any_machine(), kempston, mouse)
+}
+
+/// as `any_controller_at` for a given (possibly literal) machine
+pub(crate) fn controller_at_machine(m: ZXMachine, kempston: bool, mouse: bool) -> (ZXController<VHost>, SpecLatch, usize) {
     let mut c = mk_controller(m, FbCtx { wx: 0, wy: 0 }, kempston, mouse);
     let mut latch = SpecLatch::reset();
     let (v1, v2): (u8, u8) = (kani::any(), kani::any());
@@ -1012,9 +1016,8 @@ fn c07_read_with_tape_loaded() {
 
 /// floating-bus check with a witness byte in a literal bank class: 0 = the normal screen, 1 = the shadow
 /// screen (128K bank 7), 2 = RAM that is never display memory
-fn floating_bus_body(shadow_displayed: bool) {
-    let (mut c, latch, t) = any_controller_at(false, false);
-    let m = c.machine;
+fn floating_bus_body(m: ZXMachine, shadow_displayed: bool) {
+    let (mut c, latch, t) = controller_at_machine(m, false, false);
     // which screen the ULA displays is literal per harness (re-assigning the field to the value it is
     // assumed to hold keeps the page base address in floating_bus_value a constant for the solver)
     if shadow_displayed {
@@ -1131,7 +1134,24 @@ fn floating_bus_body(shadow_displayed: bool) {
 // @tier quick
 // @timeout 1500
 // @fn ZXController::read_io (unclaimed port); ZXController::floating_bus_value; bitmap_line_addr; ZXMemory::ram_page_data
-// @sym 48K, or 128K with latch bit 3 clear (normal screen displayed); latch otherwise symbolic (any bank at 0xC000, lock, ROM), frame time, unclaimed odd port, one witness byte (cell from a class of 5 bitmap/attribute positions) in the normal screen bank, the shadow screen bank or a RAM bank that is never display memory
+// @sym 48K machine; latch otherwise symbolic (any bank at 0xC000, lock, ROM), frame time, unclaimed odd port, one witness byte (cell from a class of 5 bitmap/attribute positions) in the normal screen bank, the shadow screen bank or a RAM bank that is never display memory
+// @assert a read from a port no device claims returns 0xFF when the whole cycle lies outside the picture fetch windows (+-4 T); otherwise 0xFF or a byte of the display file/attributes of the cells being fetched during the cycle (+-4 T), taken from the bank the ULA is displaying (bank 7 while latch bit 3 is set) and from no other RAM bank, whatever is paged at 0xC000
+// @bound one port read; witness positions {(0,0), (100,17), (191,31)} bitmap, {(12,17), (23,31)} attributes
+// @stub ZXScreen::process_clocks -> no-op
+// @replay solver-only
+#[kani::proof]
+#[kani::unwind(10)]
+#[kani::stub(crate::zx::video::screen::ZXScreen::process_clocks, noop_screen_clocks)]
+fn c07_floating_bus_48k() {
+    floating_bus_body(ZXMachine::Sinclair48K, false);
+}
+
+// @harness
+// @prop C07
+// @tier quick
+// @timeout 1500
+// @fn ZXController::read_io (unclaimed port); ZXController::floating_bus_value; bitmap_line_addr; ZXMemory::ram_page_data
+// @sym 128K with latch bit 3 clear (normal screen displayed); latch otherwise symbolic (any bank at 0xC000, lock, ROM), frame time, unclaimed odd port, one witness byte (cell from a class of 5 bitmap/attribute positions) in the normal screen bank, the shadow screen bank or a RAM bank that is never display memory
 // @assert a read from a port no device claims returns 0xFF when the whole cycle lies outside the picture fetch windows (+-4 T); otherwise 0xFF or a byte of the display file/attributes of the cells being fetched during the cycle (+-4 T), taken from the bank the ULA is displaying (bank 7 while latch bit 3 is set) and from no other RAM bank, whatever is paged at 0xC000
 // @bound one port read; witness positions {(0,0), (100,17), (191,31)} bitmap, {(12,17), (23,31)} attributes
 // @stub ZXScreen::process_clocks -> no-op
@@ -1140,7 +1160,7 @@ fn floating_bus_body(shadow_displayed: bool) {
 #[kani::unwind(10)]
 #[kani::stub(crate::zx::video::screen::ZXScreen::process_clocks, noop_screen_clocks)]
 fn c07_floating_bus_normal_screen() {
-    floating_bus_body(false);
+    floating_bus_body(ZXMachine::Sinclair128K, false);
 }
 
 // @harness
@@ -1157,7 +1177,7 @@ fn c07_floating_bus_normal_screen() {
 #[kani::unwind(10)]
 #[kani::stub(crate::zx::video::screen::ZXScreen::process_clocks, noop_screen_clocks)]
 fn c07_floating_bus_shadow_screen() {
-    floating_bus_body(true);
+    floating_bus_body(ZXMachine::Sinclair128K, true);
 }
 
 // =============================================================================================
